@@ -191,15 +191,25 @@ def _is_narrowed(t):
         x = t[1]
     elif t[0] == "field" and t[2] == "0" and t[1][0] == "variant" and t[1][2] == "Ok":
         x = t[1][1]
-    return x is not None and is_call(x, "core::convert::TryInto::try_into") and x[2][0] == ("field", ("variant", ("param", 0), "Integer"), "0")
+    if x is not None and is_call(x, "core::convert::TryInto::try_into") and x[2][0] == ("field", ("variant", ("param", 0), "Integer"), "0"):
+        return True
+    # the same integer taken from `Label::from_cbor_value(value)?` (type and range checks shared with the plain Label, whose
+    # decoder is judged by C07 R-5 and C15 R-1)
+    from lib.prov import strip_sites
+    return strip_sites(t) == ("field", ("variant", VIA_LABEL, "Int"), "0")
+
+
+LABEL_DEC = "<common::Label as common::AsCborValue>::from_cbor_value"
+VIA_LABEL = ("tryok", ("call", LABEL_DEC, (("param", 0),)))
 
 
 def _chain_guards(prog, pv, conds):
     """the decisions an exit of a label decoder depends on, besides the variant of the input and `?` edges:
     {('from_i64', variants), ('is_private', bool), ('other', text)}"""
     out = set()
+    from lib.prov import strip_sites
     for c in conds:
-        if c[0] == ("discr", ("param", 0)):
+        if c[0] == ("discr", ("param", 0)) or strip_sites(c[0]) == ("discr", VIA_LABEL):
             continue
         if c[0][0] == "discr" and is_call(c[0][1], "core::ops::try_trait::Try::branch"):
             continue
@@ -272,7 +282,9 @@ def _classify(ctx, key, private):
                     problems.append("PrivateUse is produced under %s, must be exactly `from_i64(i) is None and is_private(i)`" % sorted(guards, key=str))
                 seen["PrivateUse"] = ok and g_none and g_priv
             elif v == "Text":
-                seen["Text"] = payload == ("field", ("variant", ("param", 0), "Text"), "0")
+                from lib.prov import strip_sites
+                seen["Text"] = payload == ("field", ("variant", ("param", 0), "Text"), "0") \
+                    or strip_sites(payload) == ("field", ("variant", VIA_LABEL, "Text"), "0")
             else:
                 problems.append("unexpected Ok variant %s" % v)
         elif o["kind"] == "err":
@@ -285,6 +297,8 @@ def _classify(ctx, key, private):
                     problems.append("%s is returned under %s, must be exactly %s" % (name, sorted(guards, key=str), sorted(want_g, key=str)))
         elif o["kind"] == "propagate":
             seen.setdefault("propagates", []).append(show(inner)[:80])
+            if is_call(inner, LABEL_DEC) and inner[2] == (("param", 0),):
+                seen["type_error"] = True       # the type error and the range error are the Label decoder's, handed on by `?`
         elif o["kind"] == "call" and is_call(t) and t[1].startswith("util::cbor_type_error"):
             seen["type_error"] = True
         else:
